@@ -34,7 +34,7 @@ claimed = {
          "contracts + VC generation over go/ssa + SMT"),
  'C08': ("Finite proof over error type tags: each public error type's Is answers for exactly one sentinel; evaluateError/parseError map every internal error type and sentinel to the "
          "specified category (errors.Is modelled by its documented algorithm over the repository's Is/Unwrap methods); Search/Compile/Expression.Search return nil with an error; "
-         "Expression.Search never yields a static category. Not yet: which internal error each builtin raises (C02 clauses), data-independence flow check.",
+         "Expression.Search never yields a static category. Which internal error each builtin raises for a type fault or a value fault (integer conversion, negative count, pad length, from_items pairs) is pinned by the builtins' own clauses, now also tagged C08. Not covered: data-independence flow check.",
          "contracts + VC generation over go/ssa + SMT"),
  'C10': ("Proved: the binding-power table (rank order pipe<or<and<comparison<additive<multiplicative<flatten<wildcard<filter<dot<not<bracket, 0 otherwise); in parser.expression every "
          "operator is consumed only when its power exceeds the caller's and every recursive call passes exactly the consumed operator's power (left associativity), on return the next "
@@ -66,7 +66,7 @@ claimed = {
          "contracts + VC generation over go/ssa + SMT"),
  'C15': ("Determinism by elimination of its sources in sequential Go, as a sweep over every function reachable from the API: no store to a package-level variable, no go/select/channel instruction, no external callee without a (deterministic, functional) contract, "
          "and every loop over a map (10 of them) must carry a proved invariant tagged C15 that ties what the loop has computed to the set of members visited (let bindings, multi-select hashes, merge, object equality) or, for the permitted enumerations "
-         "(keys, values, items, object wildcard), to the number of members visited. Which invariant is adequate is a reviewed choice, not a proved meta-theorem; cross-process equality follows from the absence of address- or time-dependent operations (none in the SSA of the reachable code).",
+         "(keys, values, items, object wildcard), to the number of members visited. Which invariant is adequate is a reviewed choice, not a proved meta-theorem; cross-process equality follows from the absence of address- or time-dependent operations (none in the SSA of the reachable code). The frame obligations (a call writes only memory it allocated) are part of this check: a call that writes into the document or into the AST makes the next evaluation differ.",
          "sweep obligations (map-range loops need order-insensitivity invariants; global stores, concurrency and unmodelled externals are rejected) over go/ssa + SMT"),
  'C18': ("Closure of results under the JSON carriers, as a sweep over every function of the evaluator reachable from the API: every value the library itself turns into an `any` has a carrier type "
          "(bool, string, an integer or float kind, json.Number, decimal, []any, map[string]any) and every decimal or float64 it creates is finite, under the induction hypothesis that every value received "
@@ -76,7 +76,7 @@ claimed = {
          "sweep obligations at every conversion to `any` (carrier type, finiteness under an explicit induction hypothesis) + per-case contract of evaluate, over go/ssa + SMT"),
 
  'C03': ("Zero-annotation safety sweep over every function reachable from Search/Compile/MustCompile/Expression.Search and over every Error/Is/Unwrap method: one obligation per index, slice, nil dereference, "
-         "unchecked type assertion, division, make size, explicit panic and external precondition (e.g. Decimal.Int64 on NaN), proved for all inputs with loop invariants where needed; AST well-formedness "
+         "unchecked type assertion, == on interface values whose common dynamic type may be uncomparable, division, make size, explicit panic and external precondition (e.g. Decimal.Int64 on NaN), proved for all inputs with loop invariants where needed; AST well-formedness "
          "type invariants (children non-nil, slice step non-zero, variadic calls have arguments) are established by the parser and assumed by the evaluator; error structs can be formatted. "
          "Recursion depth is NOT bounded: four known findings (stack exhaustion on deeply nested expressions/data) are reported as KNOWN-FINDING lines. Not covered: panics inside external code beyond the listed external preconditions.",
          "VC generation over go/ssa + SMT (safety obligations), type invariants"),
@@ -89,7 +89,7 @@ claimed = {
          "frame + global-store + external-effect obligations over go/ssa + SMT; reduction lemma A1 assumed"),
  'C09': ("Proved: every loop annotated with a variant decreases and is bounded by a size-only expression (string length / code-point count / array length / result width) in slice, sliceStep, find*, split*, pad*, reverse and the lexer scanners; "
          "lexer and parser make progress (position / token index strictly increase); allocation sizes are bounded by sizes of existing objects (make and Builder.Grow preconditions). Recursion depth unbounded: known findings. "
-         "Not covered: loops over arrays without an explicit variant (range loops terminate by construction), cost of external calls, polynomial composition argument.",
+         "Termination: every loop that is not a range loop carries a proved variant (sweep: a loop without one fails term.loop<n>); the parser's mutual recursion and its seven loops decrease the measure 'unread bytes + look-ahead tokens that are not the end token', proved from the bodies (Lexer.Next moves forward, every parse function keeps token position + measure from growing); the recursion of evaluate and its ten helpers decreases 2*height(node) (+1), and equal decreases the height of its first argument, under the assumptions (made in this check only) that the AST and the data are finite trees. Relative to callees returning. Not covered: variableScope.get (follows parent pointers), cost of external calls, polynomial composition argument.",
          "decreases/bound clauses + allocation obligations over go/ssa + SMT"),
  'C11': ("Proved with the ghost rune table (code-point boundaries of every string): slice returns exactly the code-point window, sliceStep the right number of code points, length counts code points, split on the empty separator yields one code point per element, "
          "pad_* pads to max(width, code points) and requires a one-code-point pad, find_* results are code-point counts within the subject. Sweep over every function reachable from the API: every string the library turns into a value and every key it puts into an object "
@@ -98,7 +98,7 @@ claimed = {
          "(an ASCII byte is never inside a longer unit). Not covered: which code points a stepped slice / reverse selects, ordering of strings beyond byte order.",
          "contracts over a ghost rune table + utf8 sweep obligations + VC generation over go/ssa + SMT"),
  'C13': ("Proved: sort_by calls a stable sort on arrays it owns, Less is strictly the decimal128.Compare / byte order of the keys, Swap swaps items and keys together; the key of every element including a single one is evaluated (caller's scope) and must be a string or number; "
-         "max/min return an element value that no other element exceeds (resp. precedes) and fail exactly when a later element has another type; max_by/min_by return an element of the input. sort succeeds only on arrays whose elements are all strings or all numbers (comparator literals under contract, invariant of the hidden comparison loop of slices.SortFunc), including one-element arrays. Assumed: contract of sort.Stable; slices.SortFunc calls its comparator with every element when there are two or more. Not covered: that the result of sort is ordered (the comparator's order), extremality for mixed representations.",
+         "max/min return an element value that no other element exceeds (resp. precedes) and fail exactly when a later element has another type; max_by/min_by return an element of the input whose key (the value evaluate yields for it) no other element's key exceeds (resp. precedes), stated over the graph of evaluate. sort succeeds only on arrays whose elements are all strings or all numbers (comparator literals under contract, invariant of the hidden comparison loop of slices.SortFunc), including one-element arrays. Assumed: contract of sort.Stable; slices.SortFunc calls its comparator with every element when there are two or more. Not covered: that the result of sort is ordered (the comparator's order), extremality for mixed representations.",
          "contracts + loop invariants + VC generation over go/ssa + SMT"),
 }
 checks = []
